@@ -34,9 +34,9 @@ class _Cvc5Job:
         self.p = subprocess.Popen(["/usr/bin/cvc5", "--strings-exp", "--tlimit=%d" % int(timeout_s * 1000), self.path],
                                   stdout=subprocess.PIPE, stderr=subprocess.PIPE, text=True)
 
-    def result(self):
+    def result(self, wait_s=None):
         try:
-            out, err = self.p.communicate(timeout=self.timeout_s + 10)
+            out, err = self.p.communicate(timeout=(wait_s if wait_s is not None else self.timeout_s + 10))
         except subprocess.TimeoutExpired:
             self.p.kill()
             self.p.communicate()
@@ -76,12 +76,13 @@ def _dump(solver):
 
 
 def check_valid(assumptions, goal, lemmas=(), timeout_ms=None, want_model=True, max_fuel=3, refute=True, thorough=False,
-                fuel_timeout_ms=20000):
+                fuel_timeout_ms=15000):
     """-> dict(status=proved|refuted|unknown, time_s, model=str|None, backend, fuel)
 
-    1. fuel encoding (uninterpreted symbols + definitional instances, depth 1..max_fuel), z3 then cvc5.
-       Queries over Seq/String are only `proved` by z3 alone when cvc5 does not contradict it (z3's sequence solver
-       returned a wrong `unsat` during development, see DESIGN appendix); a z3/cvc5 disagreement is `unknown`.
+    1. fuel encoding (uninterpreted symbols + definitional instances, depth 1..max_fuel).  z3 walks the fuel levels;
+       cvc5 runs beside it (started at once on the depth-1 query).  Queries over Seq/String are only `proved` by z3
+       alone when cvc5 does not contradict it (z3's sequence solver returned a wrong `unsat` during development, see
+       DESIGN appendix); a z3/cvc5 disagreement is `unknown`.
     2. otherwise the define-fun-rec encoding without the lemma library: `sat` => refuted (genuine counter-model
        candidate: lemmas are consequences of the definitions, dropping them loses nothing for satisfiability);
     3. else unknown."""
@@ -90,59 +91,68 @@ def check_valid(assumptions, goal, lemmas=(), timeout_ms=None, want_model=True, 
     neg = z3.Not(goal)
     base = list(assumptions) + [neg]
     lem = [defs.forall_uf(*l) for _, l in lemmas]
-    last = None
-    disagreement = False
-    for fuel in range(1, max_fuel + 1):
+    cvc5_budget = 60 if thorough else 30
+
+    def build(fuel):
         insts = defs.instances(base, fuel)
-        s = _solver(20000)
+        s = _solver(min(timeout_ms, fuel_timeout_ms))
         for f in base + lem + insts:
             s.add(defs.to_uf(f))
-        smt = _dump(s)
-        has_seq = ("(Seq " in smt) or ("seq." in smt) or ("str." in smt)
-        need_cvc5 = has_seq or thorough
-        s.set("timeout", min(timeout_ms, fuel_timeout_ms))
-        job = _Cvc5Job(smt, 40 if thorough else 12) if need_cvc5 else None
-        import threading
-        zbox = {}
-        zt = threading.Thread(target=lambda: zbox.update(r=s.check()))
-        zt.start()
-        rc = None
-        if job is not None:
-            # poll: whichever finishes first may settle the query
-            while zt.is_alive() and job.p.poll() is None:
-                zt.join(0.02)
-            if job.p.poll() is not None:
-                rc = job.result()
-                if rc == "unsat":
-                    try:
-                        s.ctx.interrupt()
-                    except Exception:
-                        pass
-                    zt.join()
-                    rz = zbox.get("r", z3.unknown)
-                    return dict(status="proved", time_s=time.time() - t0, model=None,
-                                backend="z3+cvc5" if rz == z3.unsat else "cvc5", fuel=fuel)
-        zt.join()
-        rz = zbox.get("r", z3.unknown)
-        if rz == z3.unsat and not need_cvc5:
-            return dict(status="proved", time_s=time.time() - t0, model=None, backend="z3", fuel=fuel)
-        if rz == z3.sat and job is not None and rc is None:
-            # z3 has a model of the fuel-limited query: cvc5 cannot prove it at this depth either; deepen
-            job.abandon()
-            last = "z3:sat (fuel %d)" % fuel
-            continue
-        if job is not None and rc is None:
-            rc = job.result()
-        if rc is None:
-            rc = _cvc5_smt(smt, 12) if rz != z3.sat else "skipped"
+        return s, _dump(s)
+
+    queries = {}
+    s1, smt1 = build(1)
+    queries[1] = (s1, smt1)
+    has_seq = ("(Seq " in smt1) or ("seq." in smt1) or ("str." in smt1)
+    need_cvc5 = has_seq or thorough
+    jobs = {}
+    if need_cvc5:
+        jobs[1] = _Cvc5Job(smt1, cvc5_budget)
+    z_fuel = None
+    last = None
+    for fuel in range(1, max_fuel + 1):
+        if fuel not in queries:
+            queries[fuel] = build(fuel)
+        s, smt = queries[fuel]
+        rz = s.check()
+        last = "z3:%s (fuel %d)" % (rz, fuel)
+        if rz == z3.unsat:
+            z_fuel = fuel
+            break
+        # cvc5 may already have settled the shallow query while z3 was working on it
+        if 1 in jobs and jobs[1].p.poll() is not None and not getattr(jobs[1], "_res", None):
+            jobs[1]._res = jobs[1].result()
+            if jobs[1]._res == "unsat":
+                return dict(status="proved", time_s=time.time() - t0, model=None, backend="cvc5", fuel=1)
+    if z_fuel is not None and not need_cvc5:
+        return dict(status="proved", time_s=time.time() - t0, model=None, backend="z3", fuel=z_fuel)
+    disagreement = False
+    if z_fuel is not None:
+        for f, j in list(jobs.items()):
+            if f != z_fuel:
+                if getattr(j, "_res", None) is None:
+                    j.abandon()
+                del jobs[f]
+        if z_fuel not in jobs:
+            jobs[z_fuel] = _Cvc5Job(queries[z_fuel][1], cvc5_budget)
+        j = jobs[z_fuel]
+        # z3 has the proof; cvc5 is asked for a second opinion within a shorter budget (its `unknown` is accepted)
+        rc = getattr(j, "_res", None) or j.result(wait_s=45 if thorough else 10)
         if rc == "unsat":
-            return dict(status="proved", time_s=time.time() - t0, model=None,
-                        backend="z3+cvc5" if rz == z3.unsat else "cvc5", fuel=fuel)
-        if rz == z3.unsat and rc != "sat":
-            return dict(status="proved", time_s=time.time() - t0, model=None, backend="z3(cvc5:%s)" % rc, fuel=fuel)
-        if rz == z3.unsat and rc == "sat":
-            disagreement = True
-        last = "z3:%s cvc5:%s" % (rz, rc)
+            return dict(status="proved", time_s=time.time() - t0, model=None, backend="z3+cvc5", fuel=z_fuel)
+        if rc != "sat":
+            return dict(status="proved", time_s=time.time() - t0, model=None, backend="z3(cvc5:%s)" % rc, fuel=z_fuel)
+        disagreement = True
+        last = "z3:unsat cvc5:sat (fuel %d)" % z_fuel
+    elif need_cvc5:
+        for fuel in range(1, max_fuel + 1):
+            j = jobs.get(fuel) or _Cvc5Job(queries[fuel][1], cvc5_budget)
+            rc = getattr(j, "_res", None) or j.result()
+            if rc == "unsat":
+                return dict(status="proved", time_s=time.time() - t0, model=None, backend="cvc5", fuel=fuel)
+            last = "z3:not unsat, cvc5:%s (fuel %d)" % (rc, fuel)
+            if rc == "sat" and fuel == max_fuel:
+                break
     if refute:
         s2 = _solver(timeout_ms)
         for a in base:
@@ -267,6 +277,12 @@ def verify_contract(modname, key, tier="quick", shard=0, nshards=1):
         if oi % nshards != shard:
             continue
         r = check_valid(o.assumptions, o.goal, lemmas, thorough=(tier == "thorough"))
+        if r["status"] == "unknown":
+            # one retry with larger budgets: a verdict must not flip because the machine is busy
+            r2 = check_valid(o.assumptions, o.goal, lemmas, thorough=True, fuel_timeout_ms=45000, timeout_ms=60000)
+            r2["time_s"] += r["time_s"]
+            r2["retried"] = True
+            r = r2
         rec = dict(fuel=r.get("fuel"), name=o.name, kind=o.kind, line=o.line, note=o.note, status=r["status"], time_s=round(r["time_s"], 4),
                    backend=r["backend"], contract=o.is_contract)
         if r["status"] == "refuted":
